@@ -140,8 +140,10 @@ def extract_printed(out, tag):
 
 
 # ---------------------------------------------------------------- running TLC
-def _java_cmd(workers, heap="2g", gc_threads=2, deque=False):
+def _java_cmd(workers, heap="2g", gc_threads=2, deque=False, tmpdir=None):
     cmd = ["java", "-XX:+UseParallelGC", "-XX:ParallelGCThreads=%d" % gc_threads, "-Xmx" + heap, "-Xss16m"]
+    if tmpdir:
+        cmd.append("-Djava.io.tmpdir=" + tmpdir)   # TLC unpacks its standard modules there; removed with the metadir
     if deque:
         cmd.append("-Dtlc2.tool.queue.IStateQueue=StateDeque")
     cmd += ["-cp", JAR, "tlc2.TLC"]
@@ -178,7 +180,9 @@ def run_tlc(module, cfg=None, env=None, workers=1, timeout=3600, simulate=None, 
             open(cfgpath, "w").write("\n".join(lines) + "\n")
         else:
             cfgpath = os.path.join(SPEC_DIR, cfg)
-        cmd = _java_cmd(workers, heap=heap, gc_threads=max(2, min(4, workers if isinstance(workers, int) else 4)))
+        jtmp = os.path.join(meta, "jtmp")
+        os.makedirs(jtmp, exist_ok=True)
+        cmd = _java_cmd(workers, heap=heap, gc_threads=max(2, min(4, workers if isinstance(workers, int) else 4)), tmpdir=jtmp)
         cmd += ["-workers", str(workers), "-metadir", os.path.join(meta, "states"), "-noGenerateSpecTE",
                 "-config", cfgpath]
         if not deadlock and cfg is not None:
